@@ -276,9 +276,17 @@ def check_property(pid, tier, seed):
             proof_broken.append("constants extractor: " + out)
         untranslated, tr_out = step_translate()
         ties = cfg.get("ties", [])
-        tie_broken, tie_lost, tie_witness = tie_status(untranslated) if ties else ([], [], [])
-        tie_broken = [t for t in tie_broken if t in ties]
-        tie_lost = [t for t in tie_lost if t in ties]
+        all_broken, all_lost, tie_witness = tie_status(untranslated) if ties else ([], [], [])
+        tie_broken = [t for t in all_broken if t in ties]
+        tie_lost = [t for t in all_lost if t in ties]
+        # BS.Props.GenCore (property-level statements about the translated functions) imports GenTie: it can
+        # only be built and audited when every tie theorem checks
+        gencore_off = bool(all_broken or all_lost)
+        if gencore_off:
+            cfg = dict(cfg)
+            cfg["lean_modules"] = [m for m in cfg.get("lean_modules", []) if m != "BS.Props.GenCore"]
+            cfg["theorems"] = [t for t in cfg.get("theorems", []) if t[0] != "BS.Props.GenCore"]
+            notes.append("BS.Props.GenCore not built on this run (a tie theorem is broken or not available)")
         if tie_broken:
             proof_broken.append("tie by translation broken: the Rust function(s) behind " + ", ".join(tie_broken) +
                                 " (BS/Proofs/GenTie.lean) no longer equal the model's; function-level search: " +
